@@ -219,7 +219,12 @@ class Propagator:
         self.solver.start(self.props[0], self.times[0])
         self.cte = self.solver.rhs.isconstant
         H_0 = self.solver.rhs(0)
-        self.unitary = not H_0.issuper and H_0.isherm
+        # ``U.dag()`` may stand for ``U.inv()`` only when the evolution is known
+        # to be unitary: the generator ``-iH`` is constant and anti-Hermitian.
+        # Its value at one time says nothing about the others.
+        self.unitary = (
+            not H_0.issuper and self.cte and (1j * H_0).isherm
+        )
         self.args = args
         self.memoize = max(3, int(memoize))
         self.tol = tol
